@@ -367,6 +367,86 @@ def formats_part(chk: Check, drv: Driver):
     chk.corr("parse_named_format", len(named), mism)
 
 
+def taco_text_to_tensora(text: str) -> str:
+    """taco spells an order-0 tensor as a bare name: give it back its empty parentheses (a name followed
+    by `(` is a tensor whose parenthesis group lists index names and is copied unchanged)"""
+    import re
+
+    out, pos = [], 0
+    for m in re.finditer(r"[A-Za-z][A-Za-z0-9]*", text):
+        if m.start() < pos:
+            continue
+        out.append(text[pos:m.start()])
+        rest = text[m.end():]
+        if rest.lstrip(" ").startswith("(") and not (m.start() > 0 and (text[m.start() - 1].isdigit() or text[m.start() - 1] == ".")):
+            close = text.index(")", m.end())
+            out.append(text[m.start():close + 1])
+            pos = close + 1
+        elif m.start() > 0 and (text[m.start() - 1].isdigit() or text[m.start() - 1] == "."):
+            out.append(m.group(0))  # exponent of a float literal (1e+20)
+            pos = m.end()
+        else:
+            out.append(m.group(0) + "()")
+            pos = m.end()
+    out.append(text[pos:])
+    return "".join(out)
+
+
+def taco_part(chk: Check, drv: Driver):
+    """generate/_deparse_to_taco.py (anchored in C12): the text printed for taco, read with the conventional
+    grammar (tensora's own parser, after restoring `()` on scalars), must mean the same sum of products as
+    the tree it was printed from (theorems `tacoToks_regroup`, `tacoRegroup_termsOf`)."""
+    from tensora.generate._deparse_to_taco import deparse_to_taco
+
+    from .. import kernels
+
+    rng = chk.rng
+    n = 1500 if chk.tier == "quick" else 20000
+    texts = ["a(i) = b(i) - (c(i) - d(i))", "a(i) = b(i) - (c(i) + d(i))", "a() = s() - (t() - 2)", "a(i,j) = b(i,j) * (c(i) * d(j))",
+             "a(i) = b(i) + (c(i) - d(i)) * (e() + 1.5)"] + gen_ast_texts(rng, n, 4)
+    reqs, meta = [], []
+    done = bad = 0
+    for t in texts:
+        r = real_parse(t)
+        if r[0] != "ok":
+            continue
+        a = r[1]
+        try:
+            taco = deparse_to_taco(a)
+        except BaseException as e:  # noqa: BLE001
+            chk.violation(f"deparse_to_taco raised {type(e).__name__}: {str(e)[:120]}", {"text": t})
+            continue
+        back = real_parse(taco_text_to_tensora(taco))
+        done += 1
+        chk.case(("taco", taco))
+        if back[0] != "ok":
+            # literals that do not re-parse (inf: finding F7) are not this printer's business
+            if "inf" in taco or "nan" in taco:
+                continue
+            bad += 1
+            chk.violation("deparse_to_taco text is not a sentence of the conventional grammar", {"text": t, "taco": taco}, got=str(back[:2]))
+            continue
+        b = back[1]
+        same = (b.target == a.target) and kernels.additive_terms(b.expression) == kernels.additive_terms(a.expression)
+        if not same:
+            bad += 1
+            chk.violation("deparse_to_taco text read with the conventional precedence/associativity means a different sum of products",
+                          {"text": t, "taco": taco}, expected=str(kernels.additive_terms(a.expression))[:300], got=str(kernels.additive_terms(b.expression))[:300])
+        reqs.append("DEPARSETACO " + sx(export_ast(a)))
+        meta.append((t, taco))
+    chk.corr("deparse_to_taco-meaning(oracle)", done, bad)
+    if TACO_MODEL:
+        mism = 0
+        for (t, taco), rep in zip(meta, drv.batch(reqs)):
+            if rep != taco:
+                mism += 1
+                chk.unproved_obligation("correspondence:deparse_to_taco", f"model {rep!r} vs code {taco!r}", {"text": t})
+        chk.corr("deparse_to_taco", len(meta), mism)
+
+
+TACO_MODEL = False
+
+
 def run(chk: Check, drv: Driver):
     chk.cov["rule"] = (
         "random sentences of the assignment grammar (depth<=3, redundant parentheses, spacing variants, every literal spelling class), "
@@ -376,6 +456,7 @@ def run(chk: Check, drv: Driver):
     )
     assignments_part(chk, drv)
     rejection_oracle(chk, drv)
+    taco_part(chk, drv)
     formats_part(chk, drv)
     chk.assumptions += ["int()/float()/str() of CPython convert literal lexemes; the model keeps lexemes"]
 
